@@ -622,7 +622,7 @@ func init() {
 		Bubble: false, // chosen per case below
 		Cases: func(tier string) int {
 			if tier == "thorough" {
-				return 6000
+				return 12000
 			}
 
 			return 540
